@@ -11,7 +11,7 @@ import (
 )
 
 func isNilable(te string) bool {
-	return te == "any" || strings.HasPrefix(te, "*") || strings.HasPrefix(te, "map[")
+	return te == "any" || strings.HasPrefix(te, "*") || strings.HasPrefix(te, "map[") || strings.HasPrefix(te, "[]")
 }
 
 func fieldType(structName, field string) (string, bool) {
@@ -284,6 +284,15 @@ func looseZero(v *V, te string) bool {
 		return te != "any" && v.Nil
 	case "map":
 		return te != "any" && v.Nil
+	case "arr":
+		for _, e := range v.E {
+			if e != 0 {
+				return false
+			}
+		}
+		return te != "any"
+	case "sl":
+		return te != "any" && (v.Nil || len(v.E) == 0)
 	}
 	return false
 }
